@@ -216,43 +216,46 @@ Definition rs_tc_matches (s : schema) (cond concrete : str) : bool :=
 Definition rs_psels := list (str * selection).
 Definition rs_under (p : str) (sels : list selection) : rs_psels := map (pair p) sels.
 
-(* collect_fields: one fresh map per call, merged into the caller's.  Fuel bounds the nesting of fragments
-   (spreads may be cyclic in an invalid document; the code would overflow its stack). *)
+(* collect_fields: one fresh map per call, merged into the caller's.  `rec` is the recursive call for the
+   selection set of a fragment; fuel (in rs_collect) bounds the nesting of fragments (spreads may be cyclic in
+   an invalid document; the code would overflow its stack). *)
+Fixpoint rs_collect_go (rec : rs_psels -> option rs_groups) (s : schema) (d : document) (concrete : str)
+    (l : rs_psels) (acc : rs_groups) {struct l} : option rs_groups :=
+  match l with
+  | [] => Some acc
+  | (p, sel) :: r =>
+      match sel with
+      | SField alias name _ _ sels =>
+          let f := {| rcf_parent := p; rcf_alias := alias; rcf_name := name; rcf_sels := sels |} in
+          rs_collect_go rec s d concrete r (rs_merge acc (rcf_key f) [f])
+      | SSpread n _ =>
+          match rs_find_fragment d n with
+          | Some (cond, fsels) =>
+              if rs_tc_matches s cond concrete then
+                match rec (rs_under cond fsels) with
+                | None => None
+                | Some sub => rs_collect_go rec s d concrete r (rs_merge_all acc sub)
+                end
+              else rs_collect_go rec s d concrete r acc
+          | None => rs_collect_go rec s d concrete r acc
+          end
+      | SInline cond _ sels =>
+          let p' := match cond with Some c => c | None => p end in
+          let applies := match cond with Some c => rs_tc_matches s c concrete | None => true end in
+          if applies then
+            match rec (rs_under p' sels) with
+            | None => None
+            | Some sub => rs_collect_go rec s d concrete r (rs_merge_all acc sub)
+            end
+          else rs_collect_go rec s d concrete r acc
+      end
+  end.
+
 Fixpoint rs_collect (fuel : nat) (s : schema) (d : document) (concrete : str) (psels : rs_psels)
   : option rs_groups :=
   match fuel with
   | O => None
-  | S fuel' =>
-      (fix go (l : rs_psels) (acc : rs_groups) {struct l} : option rs_groups :=
-         match l with
-         | [] => Some acc
-         | (p, sel) :: r =>
-             match sel with
-             | SField alias name _ _ sels =>
-                 let f := {| rcf_parent := p; rcf_alias := alias; rcf_name := name; rcf_sels := sels |} in
-                 go r (rs_merge acc (rcf_key f) [f])
-             | SSpread n _ =>
-                 match rs_find_fragment d n with
-                 | Some (cond, fsels) =>
-                     if rs_tc_matches s cond concrete then
-                       match rs_collect fuel' s d concrete (rs_under cond fsels) with
-                       | None => None
-                       | Some sub => go r (rs_merge_all acc sub)
-                       end
-                     else go r acc
-                 | None => go r acc
-                 end
-             | SInline cond _ sels =>
-                 let p' := match cond with Some c => c | None => p end in
-                 let applies := match cond with Some c => rs_tc_matches s c concrete | None => true end in
-                 if applies then
-                   match rs_collect fuel' s d concrete (rs_under p' sels) with
-                   | None => None
-                   | Some sub => go r (rs_merge_all acc sub)
-                   end
-                 else go r acc
-             end
-         end) psels []
+  | S fuel' => rs_collect_go (rs_collect fuel' s d concrete) s d concrete psels []
   end.
 
 (* concrete_type *)
